@@ -7,9 +7,17 @@ against an ECU model behind a transport that keeps an ECU-side ground-truth log.
     GraphECU             harness subclass of gallia's UDSServer: session transitions are an arbitrary directed graph; the
                          default response chain of the real base class is left switched on, so an absent edge is answered
                          with 0x12 / 0x7E by gallia's own rules.  Guarded edges answer another NRC and do not change session.
+                         `mute` = {(ECU session, service id): minimum payload length}: a request to that service in that session
+                         whose payload (bytes after the service id) is shorter than the minimum is dropped by the ECU without
+                         any reply and without any effect (an ECU that silently discards under-length requests); logged with
+                         reply None, log indices kept in self.muted.
     ResultCapture        logging handler collecting the result-tagged records of the scanner (no console / file output).
     make_scanner         builds a scanner object from keyword options through its own pydantic CONFIG_TYPE (no CLI).
-    run_scanner          runs main() (ecu assigned directly) or run() = setup()/main()/teardown() (transport loader patched).
+    run_scanner          runs main() (ecu assigned directly) or run() = setup()/main()/teardown() (transport loader patched);
+                         with db=True the scanner's own _db_insert_run_meta() / _db_finish_run_meta() (what entry_point() does
+                         around run()) open and close a real DBHandler on config.db.  DB-backed runs need a REAL event loop
+                         (aiosqlite worker thread), see run_real().
+    read_session_transitions   the session_transition rows of a database file, read with the stdlib sqlite3 module.
 
 Nothing here decides a property; the oracles live in vf/checks/c09.py and c10.py and read only the ground-truth log.
 """
@@ -37,7 +45,7 @@ class BudgetExceeded(BaseException):
 
 class InProcessTransport(BaseTransport, scheme="inprocess"):
     def __init__(self, server: UDSServer, budget: int | None = None, dropouts: set[int] | None = None,
-                 drop_filter: Any = None, losses: set[int] | None = None) -> None:
+                 drop_filter: Any = None, losses: set[int] | None = None, mute: dict[tuple[int, int], int] | None = None) -> None:
         super().__init__(TargetURI(TARGET))
         self.server = server
         self.st = UDSServerTransport(server, TargetURI(TARGET))
@@ -56,6 +64,9 @@ class InProcessTransport(BaseTransport, scheme="inprocess"):
         self.lost: set[int] = set()
         self._n_filtered = 0
         self.n_dropouts = 0
+        # ECU-side behaviour: under-length requests to (session, service id) are discarded without a reply
+        self.mute = dict(mute or {})
+        self.muted: set[int] = set()
 
     @classmethod
     async def connect(cls, target: str | TargetURI, timeout: float | None = None) -> "InProcessTransport":
@@ -75,6 +86,12 @@ class InProcessTransport(BaseTransport, scheme="inprocess"):
         data = bytes(data)
         before = self.server.state.session
         self.queue.clear()  # a reply nobody read is gone (cannot happen: replies are produced synchronously)
+        if self.mute and data:
+            need = self.mute.get((before, data[0]))
+            if need is not None and len(data) - 1 < need:
+                self.muted.add(len(self.log))
+                self.log.append((before, data, None, before))
+                return len(data)
         reply, _ = await self.st.handle_request(data)
         after = self.server.state.session
         self.log.append((before, data, reply, after))
@@ -202,15 +219,20 @@ class _Loader:
         return self.transport
 
 
-async def run_scanner(scanner: Any, transport: InProcessTransport, full: bool) -> dict[str, Any]:
+async def run_scanner(scanner: Any, transport: InProcessTransport, full: bool, db: bool = False) -> dict[str, Any]:
     """full=False: scanner.ecu is assigned and main() awaited.  full=True: the real run() (= setup(), main(), teardown())
     with gallia.plugins.plugin.load_transport patched to hand out `transport`.
-    Returns {"exit": None | code, "error": exception | None}."""
+    db=True (config.db must name the sqlite file; real event loop only): the scanner's own _db_insert_run_meta() runs first and
+    _db_finish_run_meta() last, as in entry_point(); with full=False the database part of UDSScanner.setup() is repeated here
+    (handler handed to the ECU, insert_scan_run(target)).
+    Returns {"exit": None | code, "error": exception | None, "run": scan_run id | None}."""
     from gallia.plugins import plugin
     from gallia.services.uds.ecu import ECU
 
-    out: dict[str, Any] = {"exit": None, "error": None}
+    out: dict[str, Any] = {"exit": None, "error": None, "run": None}
     try:
+        if db:
+            await scanner._db_insert_run_meta()
         if full:
             orig = plugin.load_transport
             plugin.load_transport = lambda target: _Loader(transport)  # type: ignore[assignment]
@@ -221,6 +243,10 @@ async def run_scanner(scanner: Any, transport: InProcessTransport, full: bool) -
         else:
             scanner.transport = transport
             scanner.ecu = ECU(transport, timeout=scanner.config.timeout, max_retry=scanner.config.max_retries)
+            if db:
+                scanner.ecu.db_handler = scanner.db_handler
+                await scanner.db_handler.insert_scan_run(scanner.config.target.raw)
+                scanner._apply_implicit_logging_setting()
             await scanner.main()
     except SystemExit as e:
         out["exit"] = e.code if isinstance(e.code, int) else 1
@@ -228,7 +254,51 @@ async def run_scanner(scanner: Any, transport: InProcessTransport, full: bool) -
         out["error"] = e
     except Exception as e:
         out["error"] = e
+    finally:
+        if db and scanner.db_handler is not None:
+            out["run"] = scanner.db_handler.scan_run
+            scanner.run_meta.exit_code = out["exit"] or 0
+            await scanner._db_finish_run_meta()
     return out
+
+
+def run_real(coro: Any, wall_limit: float) -> Any:
+    """Run `coro` on a fresh REAL event loop (DB-backed scans: aiosqlite completes its futures from a worker thread, which a
+    virtual-time loop would misread as 'nothing scheduled').  TimeoutError after `wall_limit` real seconds."""
+    async def guarded() -> Any:
+        return await asyncio.wait_for(coro, wall_limit)
+
+    try:
+        return asyncio.run(guarded())
+    finally:
+        asyncio.set_event_loop(None)
+
+
+def read_session_transitions(path: Any) -> list[tuple[int, int, Any]]:
+    """[(scan run id, destination, steps)] in insertion order; steps decoded from JSON (whatever it holds)"""
+    import json
+    import sqlite3
+
+    con = sqlite3.connect(f"file:{path}?mode=ro", uri=True)
+    try:
+        rows = con.execute("SELECT run, destination, steps FROM session_transition ORDER BY rowid").fetchall()
+    finally:
+        con.close()
+    out = []
+    for run, dest, steps in rows:
+        try:
+            dec = json.loads(steps) if steps is not None else None
+        except ValueError:
+            dec = steps
+        out.append((run, dest, dec))
+    return out
+
+
+def remove_db(path: Any) -> None:
+    from pathlib import Path
+
+    for suffix in ("", "-wal", "-shm", "-journal"):
+        Path(str(path) + suffix).unlink(missing_ok=True)
 
 
 def render_ranges(rng: Any, values: list[int]) -> list[str]:
